@@ -297,4 +297,16 @@ def results_event(res, eng, keys, K, chains, included, excluded, store_kernel_st
                 arr = np.asarray(post[k0])[c]
                 tags = [_uniform_tag(arr[t])[:2] for t in range(arr.shape[0])]
             per_chain[c]["posterior"] = {"none": False, "tags": tags, "keys": sorted(post.keys())}
+    # reading and summarising the results must not change what is stored (gs.Summary edits the dict it is handed)
+    reread_ok = True
+    if post is not None and len(post):
+        snap = {k: np.asarray(v).copy() for k, v in post.items()}
+        try:
+            gs.Summary(res, deselected=[sorted(post)[0]], additional_chain={"__extra__": np.asarray(post[sorted(post)[0]])})
+        except Exception:  # noqa: BLE001  (very short chains: the summary itself may refuse; the re-read below still counts)
+            pass
+        again = res.get_posterior_samples()
+        reread_ok = sorted(again) == sorted(snap) and all(np.array_equal(np.asarray(again[k]), snap[k]) for k in snap)
+    for c in range(chains):
+        per_chain[c]["reread_ok"] = bool(reread_ok)
     return per_chain
